@@ -258,4 +258,16 @@ theorem pkm_parse_eq_model (bs : Bytes) :
   · simp [xReadInt, xReadMpint1, h1, h2, h3, h4, h5, h6, h7, h8', h9, bind, Except.bind]
   simp [xReadInt, xReadMpint1, h1, h2, h3, h4, h5, h6, h7, h8', h9, bind, Except.bind, pure, Except.pure]
 
+/-- SSH-1 public-key message: regenerated `write`, then regenerated `parse`, gives the message back (8-byte cookie, a message the writer accepts) -/
+theorem regenerated_pkm_roundtrip (p : Wire.Pkm) (bs : Bytes) (hc : p.cookie.length = 8)
+    (hw : (Gen.Logic.pkm_write xWrite xWriteInt xWriteMpint1 (.ok []) p.cookie (p.skBits : Int) (p.skE : Int) (p.skN : Int) (p.hkBits : Int) (p.hkE : Int)
+            (p.hkN : Int) (p.pflags : Int) (p.cmask : Int) (p.amask : Int)).2 = .ok bs) :
+    ∃ rest, Gen.Logic.pkm_parse xRead xReadInt xReadMpint1 (.ok bs)
+      = (some (p.cookie, (p.skBits : Int), (p.skE : Int), (p.skN : Int), (p.hkBits : Int), (p.hkE : Int), (p.hkN : Int), (p.pflags : Int), (p.cmask : Int),
+               (p.amask : Int)), .ok rest) := by
+  rw [pkm_write_eq_model] at hw
+  have h := pkm_parse_eq_model bs
+  rw [C10.pkm_rt p bs hc hw] at h
+  exact h
+
 end SshAudit.GenLogic
